@@ -23,6 +23,7 @@ import zlib
 from vplib import *
 
 PROP = "C15"
+RUNDIR = os.path.join(BUILD, "run", "c15", "p%d" % os.getpid())     # concurrent checks must not share files
 W64 = 1 << 64
 HDR = 8
 MIN_FREE = 16 * 1024 * 1024
@@ -338,6 +339,32 @@ def gen_history(rng, regime=None):
     return {"ids": {str(i): t0[i] for i in ids}, "ops": ops, "regime": regime}
 
 
+def huge_histories():
+    """Natural compaction (thorough tier): freeSize crosses 16 MiB and half of the file inside setData.
+    A: five 4 MiB streams, four invalidated (free = 16 MiB + 4 records' overhead >= 16 MiB) -> the next store compacts.
+    B: the same with one stream 64 bytes shorter so that free stays just below 16 MiB -> no compaction,
+       then one more invalidation -> compaction."""
+    t = 1700000000 * 10 ** 9
+    mib4 = 4 * 1024 * 1024
+    hs = []
+    for name, ln in (("huge-compacts", mib4 - 24), ("huge-just-below", mib4 - 40)):
+        # a record with one chunk of ln bytes takes ln + 25 bytes: four of them are >= 16 MiB only for the first
+        ids = [1, 2, 3, 4, 5, 6]
+        ops = []
+        for i in ids[:5]:
+            ops.append(["store", i, [[0, "p%d.%d" % (ln if i != 5 else 1000, i), t + 1000 * i, ""], [1, "p3.%d" % i, t + 2000 * i, "61"]]])
+        ops.append(["inval", [1, 2, 3]])
+        ops.append(["store", 6, [[0, "h78", t + 5, ""]]])
+        ops.append(["inval", [4]])
+        ops.append(["store", 6, [[0, "h79", t + 6, ""]]])         # compacts in the first history only
+        ops.append(["store", 3, [[1, "h7a", t + 7, ""]]])
+        ops.append(["inval", [5]])
+        ops.append(["store", 2, [[1, "h7b", t + 8, ""]]])         # now also in the second
+        ops.append(["reopen"])
+        hs.append({"ids": {str(i): t for i in ids}, "ops": ops, "regime": name})
+    return hs
+
+
 # ---------------------------------------------------------------- execution
 def split_out(path):
     hs = []
@@ -359,13 +386,15 @@ def core(line):
 def run_model(exe, cf, out, flags, timeout=1500):
     if os.path.exists(out):
         os.remove(out)
-    rc, o, _ = run(["bash", "-c", 'ulimit -s unlimited; exec "$0" "$@"', exe, cf, out, flags], timeout=timeout)
+    # the extracted list functions are not tail recursive: unlimited stack, and a large minor heap because
+    # OCaml 4 scans the whole stack at every minor collection (quadratic on 16 MiB files otherwise)
+    rc, o, _ = run(["bash", "-c", 'ulimit -s unlimited; export OCAMLRUNPARAM=s=256M; exec "$0" "$@"', exe, cf, out, flags], timeout=timeout)
     return split_out(out), ("" if rc == 0 else " model driver(%s) rc=%d: %s" % (flags, rc, o[-500:]))
 
 
 def execute(histories, exe, tag, cfg_flags, want_impl=True):
     """-> dict(impl, model_all, model_cfg, spec, drift, note)"""
-    d = os.path.join(BUILD, "run", "c15")
+    d = RUNDIR
     os.makedirs(d, exist_ok=True)
     cf = os.path.join(d, "cases_%s.txt" % tag)
     text, exp, drift = render(histories)
@@ -375,7 +404,7 @@ def execute(histories, exe, tag, cfg_flags, want_impl=True):
         iout = os.path.join(d, "impl_%s.out" % tag)
         if os.path.exists(iout):
             os.remove(iout)
-        ov = go_overlay({"internal/index/converters/zz_verif_c15_test.go": os.path.join(ROOT, "harness/c15/zz_verif_c15_test.go")}, "c15")
+        ov = go_overlay({"internal/index/converters/zz_verif_c15_test.go": os.path.join(ROOT, "harness/c15/zz_verif_c15_test.go")}, "c15_p%d" % os.getpid())
         rc, out, _ = go_test("./internal/index/converters/", ov, "^TestVerifC15$", {"VERIF_CASES": cf, "VERIF_OUT": iout}, timeout=1500)
         if rc != 0:
             res["note"] += "go harness rc=%d: %s" % (rc, out[-1500:])
@@ -442,7 +471,7 @@ def main(tier, seed, replay=None):
     known_ids = [k.get("id") for k in known]
     cfg_flags = "".join("0" if f in known_ids else "1" for f in FINDINGS)
     rng = random.Random(seed)
-    nhist = 260 if tier == "quick" else 6000
+    nhist = 260 if tier == "quick" else 4000
     histories, ncorpus = [], 0
     cdir = os.path.join(ROOT, "corpus", PROP)
     if replay:
@@ -455,6 +484,8 @@ def main(tier, seed, replay=None):
         ncorpus = len(histories)
         for i in range(nhist):
             histories.append(gen_history(rng))
+        if tier == "thorough":
+            histories.extend(huge_histories())
     res = execute(histories, exe, "main", cfg_flags)
     if replay:
         print("history:", json.dumps(histories[0]))
@@ -475,7 +506,7 @@ def main(tier, seed, replay=None):
     # which single repair, switched off in the model, reproduces the implementation's line?
     sig = {}
     if any(k != "model!=spec" for _, _, k in failing):
-        sub = [x for x in failing if x[2] != "model!=spec"][:200]
+        sub = [x for x in failing if x[2] != "model!=spec"]
         for k, f in enumerate(FINDINGS):
             fl = "".join("0" if x == k else "1" for x in range(3))
             rr = execute([histories[i] for i, _, _ in sub], exe, "sig", fl, want_impl=False)
@@ -497,6 +528,13 @@ def main(tier, seed, replay=None):
             r = execute([dict(h, ops=ops)], exe, "min", cfg_flags)
             return classify(r, 0)[1] == kind
         ops = ddmin(list(histories[i]["ops"]), fails, max_tests=80) if not replay else histories[i]["ops"]
+        if not replay:
+            # second stage: fewer chunks inside each store
+            for oi in range(len(ops)):
+                if ops[oi][0] == "store" and len(ops[oi][2]) > 1:
+                    def fails_chunks(chs, oi=oi):
+                        return fails(ops[:oi] + [["store", ops[oi][1], chs]] + ops[oi + 1:])
+                    ops = ops[:oi] + [["store", ops[oi][1], ddmin(list(ops[oi][2]), fails_chunks, max_tests=25)]] + ops[oi + 1:]
         hmin = dict(histories[i], ops=ops)
         r = execute([hmin], exe, "min", cfg_flags)
         jj, _ = classify(r, 0)
@@ -581,4 +619,6 @@ def main(tier, seed, replay=None):
                    time.time() - t0, nviol)
     log("C15 %s: %d histories, %d ops, %d swept truncation points, %d violations, %d known-finding histories, %.1fs"
         % (tier, len(histories), nops, nsweep, nviol, len(known_hits), time.time() - t0))
+    if not nviol and not replay:
+        shutil.rmtree(RUNDIR, ignore_errors=True)
     return 1 if nviol else 0
